@@ -631,6 +631,24 @@ pub fn lex(b: &[u8]) -> Result<Lexed, LexError> {
     }
 }
 
+/// The instructions that decode before the first error (for scans that must not be blinded by a
+/// later desynchronisation of the stream)
+pub fn lex_lenient(b: &[u8]) -> Vec<Ins> {
+    let mut rd = Rd { b, p: 0 };
+    let mut ins = Vec::new();
+    while rd.p < b.len() {
+        let pos = rd.p;
+        let Some(row) = row_by_code(b[pos]) else { break };
+        rd.p += 1;
+        let Ok(arg) = read_arg(&mut rd, row.arg) else { break };
+        ins.push(Ins { pos, end: rd.p, op: row, arg });
+        if row.name == "STOP" {
+            break;
+        }
+    }
+    ins
+}
+
 /// Lex a *prefix* (no STOP required): decode as many complete opcodes as the
 /// bytes contain. Used by the step-wise simulation comparison.
 pub fn lex_prefix(b: &[u8], from: usize) -> Result<Vec<Ins>, LexError> {
